@@ -67,7 +67,8 @@ Punct == {"(", ")", "[", "]", ",", ":", "LBR", "RBR", "{", "}"}
 EdgeAlts == SepAlts \cup {"none"}                      \* next to a tag delimiter the separator may vanish
 \* ... and next to an operator (other than -, which glues to names and numbers)
 OpTokens == {"+", "*", "/", "<", "<=", ">", ">=", "==", "!=", "~=", "&&", "||", "="}
-JoinAlts == {"keep", "nl", "semi", "sp"}
+\* ("cmt": both tags are kept and a <%# %> comment tag stands between them, e.g. directly before the tag that closes a block)
+JoinAlts == {"keep", "nl", "semi", "sp", "cmt"}
 Sep(a) == CASE a = "sp" -> <<" ">> [] a = "tab" -> <<"TAB">> [] a = "nl" -> <<"NL">> [] a = "crlf" -> <<"CR", "NL">> [] a = "sp2" -> <<" ", " ">>
             [] a = "cmt" -> <<" ", "HASH", " ", "n", "o", "t", "e", "NL">> [] a = "none" -> <<>>
             [] a = "cmt2" -> <<" ", "HASH", " ", "o", "n", "e", "NL", "HASH", "t", "w", "o", "NL">>
@@ -125,6 +126,7 @@ Apply(ts, ks, l, i) ==
   IF i > Len(ts) THEN <<>>
   ELSE CASE ks[i] \in {"sep", "edge", "opsep"} -> Sep(l[i]) \o Apply(ts, ks, l, i + 1)
          [] ks[i] = "join" -> IF l[i] = "keep" THEN <<ts[i]>> \o Apply(ts, ks, l, i + 1)
+                              ELSE IF l[i] = "cmt" THEN <<ts[i]>> \o CommentTag \o Apply(ts, ks, l, i + 1)
                               ELSE Join(l[i]) \o Apply(ts, ks, l, i + 3)          \* drops `%>`, `<%` and the space after it
          [] ks[i] = "end"  -> <<ts[i]>> \o (IF l[i] = "comment" THEN CommentTag ELSE <<>>) \o Apply(ts, ks, l, i + 1)
          [] ks[i] = "gap"  -> <<ts[i]>> \o Sep(l[i]) \o Apply(ts, ks, l, i + 1)
